@@ -37,8 +37,15 @@ Item(n) ==
 
 \* the failing tag
 Faults == {"unk", "failh", "type", "range", "nofunc", "div0", "silent_unk", "silent_failh", "let_unk", "assign_unk",
-           "syn_operand", "syn_let", "syn_paren", "syn_overflow", "syn_call", "syn_for"}
-IsSyntax(f) == f \in {"syn_operand", "syn_let", "syn_paren", "syn_overflow", "syn_call", "syn_for"}
+           "syn_operand", "syn_let", "syn_paren", "syn_overflow", "syn_call", "syn_for",
+           \* the failing tag spreads over several lines (its statement starts on the tag's first line): the tag's FIRST line is named
+           "ml_unk", "ml_str", "ml_range", "ml_failh", "ml_let", "ml_identnl", "ml_numnl", "ml_strfirst",
+           \* one faulty statement whose syntax errors are reported on two lines (the first one leads)
+           "syn_cascade",
+           \* the input ends within an unterminated string of the failing tag: some line of the tag is named
+           "eof_unk", "eof_div0", "eof_syn"}
+IsSyntax(f) == f \in {"syn_operand", "syn_let", "syn_paren", "syn_overflow", "syn_call", "syn_for", "eof_syn", "syn_cascade"}
+IsEof(f) == f \in {"eof_unk", "eof_div0", "eof_syn"}
 Fault(f) ==
   CASE f = "unk"    -> Emit(Id("nope"))
     [] f = "failh"  -> Emit(Call("fail", <<IntL(1)>>))
@@ -56,6 +63,19 @@ Fault(f) ==
     [] f = "syn_overflow" -> RawTag(<<"<%=", " ", "9","9","9","9","9","9","9","9","9","9","9","9","9","9","9","9","9","9","9","9", " ", "%>">>)
     [] f = "syn_call"     -> RawTag(<<"<%=", " ", "f", "(", "1", ",", " ", "%>">>)
     [] f = "syn_for"      -> RawTag(<<"<%", " ", "for", " ", "(", "x", " ", "in", " ", "y", " ", "%>">>)
+    [] f = "ml_unk"       -> RawTag(<<"<%=", " ", "1", " ", "+", "NL", "NL", " ", "nope", " ", "%>">>)
+    [] f = "ml_str"       -> RawTag(<<"<%=", " ", "QUOT", "a", "NL", "b", "QUOT", " ", "+", " ", "nope", "NL", "%>">>)
+    [] f = "ml_range"     -> RawTag(<<"<%=", " ", "[", "1", ",", "NL", " ", "2", "]", "[", "5", "]", " ", "%>">>)
+    [] f = "ml_failh"     -> RawTag(<<"<%=", " ", "fail", "(", "NL", "1", "NL", ")", " ", "%>">>)
+    [] f = "ml_let"       -> RawTag(<<"<%", " ", "let", " ", "l", " ", "=", "CR", "NL", " ", "nope", " ", "%>">>)
+    [] f = "ml_identnl"   -> RawTag(<<"<%", " ", "nope", "NL", "%>">>)                       \* the statement's first token is directly followed by a newline
+    [] f = "ml_numnl"     -> RawTag(<<"<%", " ", "1", "NL", "/", " ", "0", " ", "%>">>)
+    [] f = "ml_strfirst"  -> RawTag(<<"<%", " ", "QUOT", "a", "NL", "b", "QUOT", " ", "+", " ", "nope", " ", "%>">>)
+    [] f = "syn_cascade"  -> RawTag(<<"<%", " ", "if", " ", "(", "x", " ", "==", " ", ")", " ", "{", " ", "%>", "NL", "a", "NL", "NL", "NL",
+                                     "<%", " ", "}", " ", "else", " ", "{", " ", "%>", "b", "<%", " ", "}", " ", "%>">>)
+    [] f = "eof_unk"      -> RawTag(<<"<%=", " ", "nope", " ", "+", " ", "QUOT", "a", "NL", "b">>)
+    [] f = "eof_div0"     -> RawTag(<<"<%=", " ", "1", "/", "0", " ", "+", " ", "BQ", "a", "NL", "b">>)
+    [] f = "eof_syn"      -> RawTag(<<"<%=", " ", "nosuch", "(", "QUOT", "a", "NL", "b">>)
 
 Places == {"top", "if", "else", "for", "for2", "fn", "blk", "afterblock", "aftermlblock", "afterfor", "partial", "aftercall", "aftercontentof", "afterpartial"}
 \* placements in which the fault is the right operand of + after a call that executed statements on other lines
@@ -99,6 +119,7 @@ AddItem == stage = "pre" /\ Len(pre) < MaxPre /\ \E n \in ItemNames : pre' = App
 Pick == /\ stage = "pre" /\ \E f \in Faults, pl \in Places :
               /\ (IsSyntax(f) /\ pl = "partial" => FALSE)       \* (a partial with a syntax error: inner parse error, kept out)
               /\ (pl \in ExprPlaces => f \in ExprFaults)
+              /\ (IsEof(f) \/ f = "syn_cascade" => pl = "top")                        \* everything after it is swallowed by the string
               /\ fault' = f /\ place' = pl
         /\ stage' = "done" /\ UNCHANGED pre
 Spec == Init /\ [][AddItem \/ Pick]_vars
@@ -108,6 +129,8 @@ P == Placed(place, Fault(fault))
 Prog == PreStmts \o P.rest
 CountNL(ts) == Cardinality({i \in 1..Len(ts) : ts[i] = "NL"})
 Line == 1 + CountNL(Unparse(PreStmts)) + CountNL(P.lead)
+\* the last line of the failing tag when the input ends inside it
+MaxLine == IF IsEof(fault) THEN 1 + CountNL(Unparse(Prog)) ELSE Line
 Res == Run(Prog, WithHelpers(EmptyScope), P.parts, "")
 
 ErrTheorem == stage = "done" => Res.k = "err"
@@ -120,6 +143,6 @@ RECURSIVE JoinNames(_)
 JoinNames(ns) == IF ns = <<>> THEN "" ELSE Head(ns) \o "," \o JoinNames(Tail(ns))
 EmitCase == stage # "done" \/
             PrintT("CASE " \o ToJson([gen |-> "GenLines", src |-> Unparse(Prog), parts |-> [x \in DOMAIN P.parts |-> Unparse(P.parts[x])],
-                                       line |-> Line, fault |-> fault, place |-> place, wraps |-> (fault \in {"failh", "silent_failh"}),
+                                       line |-> Line, maxline |-> MaxLine, fault |-> fault, place |-> place, wraps |-> (fault \in {"failh", "silent_failh", "ml_failh"}),
                                        shape |-> fault \o ":" \o place \o ":" \o JoinNames(pre)]))
 =============================================================================
